@@ -257,6 +257,26 @@ func c11R4(c *Ctx) {
 			c.check(domI(ci[0].(ssa.Instruction), s.(ssa.Instruction)), name+"/drain-first", c.ipos(s), "input is drained before the fail line is written", "fail line written before draining input")
 		}
 	}
+	// the drain itself ends: it sleeps for what is left of the quiet period (timeout minus the time since the last input)
+	// and returns once nothing is left; with any other arithmetic the remainder never reaches zero and the reporter never speaks
+	ci0 := c.fn("trzszTransfer.cleanInput")
+	nSleep := 0
+	for _, sc := range callsIn(ci0, idIs("time.Sleep")) {
+		nSleep++
+		d := strip(sc.Common().Args[0])
+		b, isB := d.(*ssa.BinOp)
+		okRem := false
+		if isB && b.Op == token.SUB {
+			since, _ := callOf(b.Y)
+			okRem = isVar("timeoutDuration")(b.X) && since != nil && (calleeID(&since.Call) == "time.Since" || calleeID(&since.Call) == "(time.Time).Sub")
+		}
+		c.check(okRem, "cleanInput/sleeps-the-remainder", c.ipos(sc), "the drain sleeps for (quiet period - time since the last input)", "the drain does not sleep for (quiet period - time since the last input): the remainder never runs out and the error reporter never gets to tell the peer")
+		exits := isB && (factCmp(factsAt(sc.Block()), token.GTR, isValue(b), isConstIntV(0)))
+		c.check(exits, "cleanInput/returns-when-quiet", c.ipos(sc), "the drain goes on sleeping only while the remainder is positive", "the drain's sleep is not guarded by remainder > 0")
+	}
+	if nSleep == 0 {
+		c.undecided("cleanInput/sleeps-the-remainder", "no sleep in cleanInput")
+	}
 	// "a side that can still talk tells its peer" — and only such a side: when the error IS the peer's exit / fail message
 	// the peer has already left the protocol, and a fail line written now lands on the remote shell's command line.
 	// Truth table on the two classification calls (the condition is a disjunction).
